@@ -105,7 +105,10 @@ func (propC15) Gen(seed uint64, ex map[string]bool) interface{} {
 				sc.Ops = append(sc.Ops, c15Op{K: "register", Name: name, Via: pick(r, []int{0, 0, 1, 2, 3})})
 			}
 		case c < 15:
-			if r.P(8) {
+			if r.P(5) {
+				// somebody saves a version that does not parse (and will probably fix it a little later)
+				sc.Ops = append(sc.Ops, c15Op{K: "lsetbad", L: l, Name: name})
+			} else if r.P(8) {
 				// a timestamp-aware loader may report ANY int64: sign bit, zero, extremes (only the in-memory loader can)
 				sc.Ops = append(sc.Ops, c15Op{K: "lsetx", L: l, Name: name, D: pick(r, []int64{-1 << 63, -1 << 62, -1, 0, 1, 1 << 62, 1<<63 - 1, -2, 1 << 33})})
 			} else {
@@ -143,6 +146,15 @@ var c15Kinds = []string{"simts", "simts", "array", "fs", "compiled", "chain"}
 type c15File struct {
 	ver   int
 	mtime int64 // unix seconds
+	bad   bool  // this version does not parse: whoever has to read it gets an error (-3), and nothing is cached
+}
+
+// v is the version a reader of this file ends up with: its number, or -3 if it does not parse.
+func (f c15File) v() int {
+	if f.bad {
+		return -3
+	}
+	return f.ver
 }
 
 type c15Loader struct {
@@ -352,9 +364,14 @@ func (propC15) Run(scI interface{}) (o *Outcome) {
 		e.Load("winc_" + n)
 		e.Load("wext_" + n)
 	}
+	badNext := false
 	setFile := func(l *c15Loader, name string, ver int, second bool) {
 		src := c15Src(name, ver)
-		f := c15File{ver: ver, mtime: nowS()}
+		f := c15File{ver: ver, mtime: nowS(), bad: badNext}
+		if badNext {
+			src += "{% if %}" // a version that does not parse
+			badNext = false
+		}
 		switch l.kind {
 		case "simts":
 			l.sim.src[name] = src
@@ -459,6 +476,11 @@ func (propC15) Run(scI interface{}) (o *Outcome) {
 		case "lset":
 			nextVer++
 			setFile(loaders[op.L], op.Name, nextVer, nextVer%3 == 0)
+		case "lsetbad":
+			nextVer++
+			badNext = true
+			setFile(loaders[op.L], op.Name, nextVer, false)
+			o.Probes["unparseable_versions"]++
 		case "lsetx":
 			nextVer++
 			if l := loaders[op.L]; l.kind == "simts" {
@@ -485,8 +507,9 @@ func (propC15) Run(scI interface{}) (o *Outcome) {
 			}
 		case "ldel":
 			l := loaders[op.L]
-			if _, ok := l.files[op.Name]; ok {
+			if orig, ok := l.files[op.Name]; ok {
 				delete(l.files, op.Name)
+				_ = orig
 				switch l.kind {
 				case "simts":
 					delete(l.sim.src, op.Name)
@@ -494,7 +517,7 @@ func (propC15) Run(scI interface{}) (o *Outcome) {
 				case "array", "chain":
 					// ArrayLoader has no delete: replace the loader content map entry by re-creating is not possible;
 					// model the "deletion" as unsupported for these kinds (restore the entry)
-					l.files[op.Name] = c15File{ver: verOfLoader(l, op.Name)}
+					l.files[op.Name] = orig
 				case "fs":
 					w.FSRemove(l.dir + "/" + op.Name + ".twig")
 				case "compiled":
@@ -538,7 +561,7 @@ func (propC15) Run(scI interface{}) (o *Outcome) {
 			lookup := func() (int, int, int64) { // version, loader index, mtime ; -1 = not found
 				for i, l := range loaders {
 					if f, ok := serves(l, op.Name); ok {
-						return f.ver, i, f.mtime
+						return f.v(), i, f.mtime
 					}
 				}
 				return -1, -1, 0
@@ -580,13 +603,13 @@ func (propC15) Run(scI interface{}) (o *Outcome) {
 					// wins" and "unchanged template is not re-read"; either answer is admissible
 					for i := 0; i < c.origin; i++ {
 						if f2, ok := serves(loaders[i], op.Name); ok && f2.ver != c.ver {
-							admissible[f2.ver] = true
+							admissible[f2.v()] = true
 						}
 					}
 				default:
 					// content changed but the timestamp is not newer: either version
 					admissible[c.ver] = true
-					admissible[f.ver] = true
+					admissible[f.v()] = true
 				}
 			default:
 				v, li, mt := lookup()
@@ -697,7 +720,7 @@ func (propC15) Run(scI interface{}) (o *Outcome) {
 				}
 				okVer := admissible[got] || got == mustServe[op.Name] || (cached && got == c.ver)
 				if gerr != nil && !errors.Is(gerr, twig.ErrTemplateNotFound) {
-					okVer = false
+					okVer = admissible[-3] // only an unparseable version explains an error that is not "not found"
 				}
 				if !okVer && !(gerr != nil && errors.Is(gerr, twig.ErrTemplateNotFound) && admissible[-1]) {
 					return fail("wrong version served while the template was being rewritten", fmt.Sprintf("op #%d %s %s served v%d err=%v; admissible %v or the writer's v%d\n %s", oi, op.K, op.Name, got, gerr, keysOf(admissible), mustServe[op.Name], describe()))
@@ -770,7 +793,7 @@ func (propC15) Run(scI interface{}) (o *Outcome) {
 				return fail("unrelated version served while a loader fault fired",
 					fmt.Sprintf("op #%d %s %s served v%d err=%v; admissible %v\n %s", oi, op.K, op.Name, got, gerr, keysOf(admissible), describe()))
 			}
-			if got == -3 {
+			if got == -3 && !admissible[-3] {
 				return fail("unexpected error class", fmt.Sprintf("op #%d %s %s: %v\n %s", oi, op.K, op.Name, gerr, describe()))
 			}
 			if !admissible[got] {
@@ -907,6 +930,8 @@ func opsText(ops []c15Op) string {
 			s += fmt.Sprintf("%s(L%d,%s) ", op.K, op.L, op.Name)
 		case "lsetx":
 			s += fmt.Sprintf("lset(L%d,%s,mtime=%d) ", op.L, op.Name, op.D)
+		case "lsetbad":
+			s += fmt.Sprintf("lset-unparseable(L%d,%s) ", op.L, op.Name)
 		case "addloader":
 			s += fmt.Sprintf("addloader(%s) ", c15Kinds[op.Via%len(c15Kinds)])
 		case "chainadd":
@@ -947,7 +972,7 @@ func (propC15) Shrink(scI interface{}) []interface{} {
 			for j := range c.Ops {
 				if c.Ops[j].L > i {
 					c.Ops[j].L--
-				} else if c.Ops[j].L == i && (c.Ops[j].K == "lset" || c.Ops[j].K == "lsetx" || c.Ops[j].K == "touch" || c.Ops[j].K == "ldel" || c.Ops[j].K == "fault") {
+				} else if c.Ops[j].L == i && (c.Ops[j].K == "lset" || c.Ops[j].K == "lsetx" || c.Ops[j].K == "lsetbad" || c.Ops[j].K == "touch" || c.Ops[j].K == "ldel" || c.Ops[j].K == "fault") {
 					c.Ops[j].K = "nop"
 				}
 			}
